@@ -764,4 +764,401 @@ theorem inv5_run (s : St) (ls : List (Who × Lab)) (hi : Inv5 s) : Inv5 (run s l
     · rename_i s' hs; exact ih s' (inv5_step s s' x l hi hs)
     · exact ih s hi
 
+/-! ### quiescence -/
+
+/-- every API object of the side has been dropped -/
+def AllDropped (s : Side) : Prop :=
+  s.clientsAlive = false ∧ s.listenerAlive = false ∧ s.held = [] ∧ s.senders = [] ∧ s.receivers = []
+
+/-- no internal label of the side is enabled -/
+def NoInt (x : Side) (inW : List Msg) : Prop := ∀ l, l.internal = true → stepSide x inW l = none
+
+/-- a dispatcher that has not said `Goodbye` and has nothing enabled: its queues are empty, it has
+noticed the dropped listener, and `should_terminate` is false -/
+theorem noInt_dispatching (x : Side) (inW : List Msg) (hn : NoInt x inW) (hd : x.ep.goodbyeSent = false)
+    (h1 : ∀ ev rest, x.connQ = ev :: rest → (handleEvt x.ep ev).isSome = true)
+    (h2 : ∀ ev rest, x.portQ = ev :: rest → (handleEvt x.ep ev).isSome = true) :
+    x.connQ = [] ∧ x.portQ = [] ∧ (x.listenerAlive = false → x.ep.listenerDropped = true) ∧
+    shouldTerminate x.ep = false := by
+  have hdisp : x.dispatching = true := by simp [Side.dispatching, hd]
+  refine ⟨?_, ?_, ?_, ?_⟩
+  · cases hq : x.connQ with
+    | nil => rfl
+    | cons ev rest =>
+      exfalso
+      have := hn .dispConn rfl
+      obtain ⟨r, hr⟩ := Option.isSome_iff_exists.mp (h1 ev rest hq)
+      simp [stepSide, hdisp, hq, hr] at this
+  · cases hq : x.portQ with
+    | nil => rfl
+    | cons ev rest =>
+      exfalso
+      have := hn .dispPort rfl
+      obtain ⟨r, hr⟩ := Option.isSome_iff_exists.mp (h2 ev rest hq)
+      simp [stepSide, hdisp, hq, hr] at this
+  · intro hla
+    cases hl : x.ep.listenerDropped with
+    | true => rfl
+    | false =>
+      exfalso
+      have := hn .dispListener rfl
+      simp [stepSide, hdisp, hla, hl, handleEvt] at this
+  · cases hst : shouldTerminate x.ep with
+    | false => rfl
+    | true =>
+      exfalso
+      have := hn .goodbye rfl
+      simp [stepSide, hdisp, hst, handleEvt, hd] at this
+
+/-- nothing deliverable is left: the incoming wire is empty or `Goodbye` was received -/
+theorem noInt_wire (x : Side) (inW : List Msg) (hn : NoInt x inW)
+    (hok : ∀ m rest, inW = m :: rest → ∃ e' em, handleRx x.rxView m = .ok (e', em)) :
+    inW = [] ∨ x.ep.goodbyeReceived = true := by
+  cases hw : inW with
+  | nil => exact Or.inl rfl
+  | cons m rest =>
+    right
+    cases hg : x.ep.goodbyeReceived with
+    | true => rfl
+    | false =>
+      exfalso
+      have := hn .deliver rfl
+      obtain ⟨e', em, he⟩ := hok m rest hw
+      simp [stepSide, hw, hg, he] at this
+
+theorem ports_nil_of_lookup (ps : List (Nat × PortSt)) (h : ∀ p, lookup ps p = none) : ps = [] := by
+  cases ps with
+  | nil => rfl
+  | cons a as =>
+    obtain ⟨k, v⟩ := a
+    have := h k; simp [lookup] at this
+
+/-- an entry whose local halves are dropped, whose peer owes it nothing any more, is not in the table -/
+theorem no_connected_of_owed (x y : Ep) (wxy : List Msg) (hw : Owed x y wxy []) (hnf : NotFree x)
+    (hloc : ∀ p c, lookup x.ports p = some (.connected c) → c.senderDropped = true ∧ c.receiverDropped = true)
+    (hnp : ∀ k p q, ¬ PartnerAlive k y p q) (hno : ∀ p q, ¬ Opening y wxy p q) :
+    ∀ p c, lookup x.ports p ≠ some (.connected c) := by
+  intro p c hc
+  obtain ⟨h1, h2⟩ := hloc p c hc
+  have h3 : c.remoteSendFinished = true := by
+    cases hs : c.remoteSendFinished with
+    | true => rfl
+    | false =>
+      rcases hw true p c hc (by simp [remoteFlag, hs]) with h' | h' | h'
+      · simp [cntK, cntSF] at h'
+      · exact absurd h' (hnp _ _ _)
+      · exact absurd h' (hno _ _)
+  have h4 : c.remoteRecvDropped = true := by
+    cases hs : c.remoteRecvDropped with
+    | true => rfl
+    | false =>
+      rcases hw false p c hc (by simp [remoteFlag, hs]) with h' | h' | h'
+      · simp [cntK, cntRF] at h'
+      · exact absurd h' (hnp _ _ _)
+      · exact absurd h' (hno _ _)
+  have := hnf p c hc
+  simp [Connected.free, h1, h2, h3, h4] at this
+
+/-- handles gone and no handle event queued: every connected entry has both local flags -/
+theorem local_flags_of_dropped (x : Side) (hh : HandleInv x) (hd : AllDropped x) (hq : x.portQ = []) :
+    ∀ p c, lookup x.ep.ports p = some (.connected c) → c.senderDropped = true ∧ c.receiverDropped = true := by
+  intro p c hc
+  obtain ⟨_, _, _, hs, hr⟩ := hd
+  constructor
+  · cases h : c.senderDropped with
+    | true => rfl
+    | false => have := hh.sdc p c hc h; simp [hs, hq, sdPorts] at this
+  · cases h : c.receiverDropped with
+    | true => rfl
+    | false => have := hh.rdc p c hc h; simp [hr, hq, rdPorts] at this
+
+theorem no_partner_of_dropped (y : Side) (hh : HandleInv y) (hd : AllDropped y) (hq : y.portQ = []) :
+    ∀ k p q, ¬ PartnerAlive k y.ep p q := by
+  rintro k p q ⟨d, hd', _, hl⟩
+  obtain ⟨h1, h2⟩ := local_flags_of_dropped y hh hd hq q d hd'
+  cases k <;> simp [localFlag, h1, h2] at hl
+
+/-- nothing outstanding when the listener, every held request and every queued answer are gone -/
+theorem outstanding_nil (c v : Side) (wcv wvc : List Msg) (r : ReqInv c v wcv wvc) (hd : AllDropped v)
+    (hq : v.portQ = []) : v.ep.outstanding = [] := by
+  obtain ⟨_, hl, hh, _, _⟩ := hd
+  have hlq := r.lq hl
+  cases ho : v.ep.outstanding with
+  | nil => rfl
+  | cons a as =>
+    have := (r.outMem a).mpr (by rw [ho]; simp)
+    simp [outWhere, hlq, hh, hq, ansPorts] at this
+
+/-- all invariants of a state, seen from one side `x` (peer `y`; `x` writes `wxy` and reads `wyx`) -/
+structure View (x y : Side) (wxy wyx : List Msg) : Prop where
+  rxy : ReqInv x y wxy wyx
+  ryx : ReqInv y x wyx wxy
+  pxy : PortInv x.ep y.ep wxy
+  pyx : PortInv y.ep x.ep wyx
+  fxy : FlagInv x.ep y.ep wxy
+  fyx : FlagInv y.ep x.ep wyx
+  qx : QType x
+  qy : QType y
+  cx : ClientInv x
+  cy : ClientInv y
+  ax : AllocInv x
+  ay : AllocInv y
+  hx : HandleInv x
+  hy : HandleInv y
+  nx : NotFree x.ep
+  ny : NotFree y.ep
+  wx : Owed x.ep y.ep wxy wyx
+  wy : Owed y.ep x.ep wyx wxy
+  tx : TermInv x.ep y.ep
+  ty : TermInv y.ep x.ep
+  ctlx : ∀ m ∈ wyx, isCtl m = true
+  ctly : ∀ m ∈ wxy, isCtl m = true
+
+theorem View.swap {x y : Side} {wxy wyx : List Msg} (v : View x y wxy wyx) : View y x wyx wxy :=
+  ⟨v.ryx, v.rxy, v.pyx, v.pxy, v.fyx, v.fxy, v.qy, v.qx, v.cy, v.cx, v.ay, v.ax, v.hy, v.hx, v.ny, v.nx, v.wy, v.wx,
+   v.ty, v.tx, v.ctly, v.ctlx⟩
+
+theorem Inv5.view {s : St} (h : Inv5 s) : View s.a s.b s.toB s.toA :=
+  let i3 := h.i4.i3
+  ⟨i3.i2.r.ab, i3.i2.r.ba, i3.i2.pab, i3.i2.pba, i3.fab, i3.fba, i3.i2.r.qa, i3.i2.r.qb, i3.ca, i3.cb, h.i4.aa, h.i4.ab,
+   h.i4.ha, h.i4.hb, h.nfa, h.nfb, h.wa, h.wb, h.ta, h.tb, i3.i2.r.wa, i3.i2.r.wb⟩
+
+/-- facts about a quiescent side that has not said `Goodbye` -/
+theorem View.idle {x y : Side} {wxy wyx : List Msg} (v : View x y wxy wyx) (hd : AllDropped x)
+    (hn : NoInt x wyx) (hg : x.ep.goodbyeSent = false) :
+    x.connQ = [] ∧ x.portQ = [] ∧ x.ep.listenerDropped = true ∧ x.ep.allClientsDropped = true ∧
+    x.ep.outstanding = [] ∧ shouldTerminate x.ep = false ∧ x.ep.goodbyeReceived = false ∧ wyx = [] := by
+  obtain ⟨e1, e2⟩ := evt_ok y x wyx wxy v.ryx v.qx v.cx v.ax v.hx
+  obtain ⟨h1, h2, h3, h4⟩ := noInt_dispatching x wyx hn hg e1 e2
+  have hgr : x.ep.goodbyeReceived = false := by
+    cases hr : x.ep.goodbyeReceived with
+    | false => rfl
+    | true => simp [shouldTerminate, hr] at h4
+  have hw : wyx = [] := by
+    rcases noInt_wire x wyx hn (fun m rest hw => by
+        subst hw
+        exact rx_ok y x m rest wxy v.ryx v.rxy v.pyx v.fyx (v.ctlx m (by simp))) with h' | h'
+    · exact h'
+    · rw [hgr] at h'; simp at h'
+  have hacd : x.ep.allClientsDropped = true := by
+    rcases v.cx.gone hd.1 with h' | h'
+    · rw [h1] at h'; simp at h'
+    · exact h'
+  exact ⟨h1, h2, h3 hd.2.1, hacd, outstanding_nil y x wyx wxy v.ryx hd h2, h4, hgr, hw⟩
+
+/-- **a quiescent side whose API objects (and its peer's) are all dropped has said `Goodbye`** -/
+theorem View.goodbye_sent {x y : Side} {wxy wyx : List Msg} (v : View x y wxy wyx)
+    (hdx : AllDropped x) (hdy : AllDropped y) (hnx : NoInt x wyx) (hny : NoInt y wxy) :
+    x.ep.goodbyeSent = true := by
+  cases hg : x.ep.goodbyeSent with
+  | true => rfl
+  | false =>
+    exfalso
+    obtain ⟨x1, x2, x3, x4, x5, x6, x7, x8⟩ := v.idle hdx hnx hg
+    subst x8
+    cases hgy : y.ep.goodbyeSent with
+    | true =>
+      -- the peer's `Goodbye` is neither in flight nor received
+      have := v.fyx.gb; rw [hgy, x7] at this; simp [b2n] at this
+    | false =>
+      obtain ⟨y1, y2, y3, y4, y5, y6, y7, y8⟩ := v.swap.idle hdy hny hgy
+      subst y8
+      -- no connected entry
+      have hnc : ∀ p c, lookup x.ep.ports p ≠ some (.connected c) :=
+        no_connected_of_owed x.ep y.ep [] v.wx v.nx (local_flags_of_dropped x v.hx hdx x2)
+          (no_partner_of_dropped y v.hy hdy y2) (fun p q h => by simp [Opening] at h)
+      -- no connecting entry
+      have hnn : ∀ p, lookup x.ep.ports p = none := by
+        intro p
+        cases hl : lookup x.ep.ports p with
+        | none => rfl
+        | some st =>
+          cases st with
+          | connected c => exact absurd hl (hnc p c)
+          | connecting =>
+            have := (v.rxy.conn p).mp hl
+            simp [reqWhere, reqPorts, respPorts, y5] at this
+      have hp := ports_nil_of_lookup _ hnn
+      simp [shouldTerminate, hp, x4, x3, x5] at x6
+
+theorem View.goodbye_received {x y : Side} {wxy wyx : List Msg} (v : View x y wxy wyx)
+    (hgy : y.ep.goodbyeSent = true) (hnx : NoInt x wyx) : x.ep.goodbyeReceived = true ∧ wyx = [] := by
+  have hr : x.ep.goodbyeReceived = true := by
+    rcases noInt_wire x wyx hnx (fun m rest hw => by
+        subst hw
+        exact rx_ok y x m rest wxy v.ryx v.rxy v.pyx v.fyx (v.ctlx m (by simp))) with h' | h'
+    · have := v.fyx.gb; rw [h', hgy] at this
+      cases hx : x.ep.goodbyeReceived with
+      | true => rfl
+      | false => simp [hx, b2n] at this
+    · exact h'
+  exact ⟨hr, v.fyx.done hr⟩
+
+/-- with an empty table at `x`, no wire traffic and both exited, `y` has no connected entry either -/
+theorem View.no_connected_peer {x y : Side} {wxy wyx : List Msg} (v : View x y wxy wyx)
+    (hp : x.ep.ports = []) (hw : wxy = []) : ∀ p c, lookup y.ep.ports p ≠ some (.connected c) := by
+  subst hw
+  have hxn : ∀ q, lookup x.ep.ports q = none := fun q => by rw [hp]; rfl
+  refine no_connected_of_owed y.ep x.ep wyx v.wy v.ny (fun p c hc => ?_) ?_ ?_
+  · exact (v.pyx.tx p c hc).flags_of_dead (fun hl => hl.ne_none (hxn _))
+  · rintro k p q ⟨d, hd, _⟩; rw [hxn q] at hd; simp at hd
+  · rintro p q ⟨h1, _⟩; rw [hxn q] at h1; simp at h1
+
+/-- **clean termination, core**: both endpoints have exchanged `Goodbye`, nothing is in flight and no
+connected entry is left in either table -/
+theorem View.terminated {x y : Side} {wxy wyx : List Msg} (v : View x y wxy wyx)
+    (hdx : AllDropped x) (hdy : AllDropped y) (hnx : NoInt x wyx) (hny : NoInt y wxy) :
+    x.ep.goodbyeSent = true ∧ y.ep.goodbyeSent = true ∧ x.ep.goodbyeReceived = true ∧ y.ep.goodbyeReceived = true ∧
+    wxy = [] ∧ wyx = [] ∧ (∀ p c, lookup x.ep.ports p ≠ some (.connected c)) ∧
+    (∀ p c, lookup y.ep.ports p ≠ some (.connected c)) := by
+  have gx := v.goodbye_sent hdx hdy hnx hny
+  have gy := v.swap.goodbye_sent hdy hdx hny hnx
+  obtain ⟨rx, wx⟩ := v.goodbye_received gy hnx
+  obtain ⟨ry, wy⟩ := v.swap.goodbye_received gx hny
+  refine ⟨gx, gy, rx, ry, wy, wx, ?_, ?_⟩
+  · rcases v.tx gx with hp | ⟨_, hp⟩
+    · intro p c hc; rw [hp] at hc; simp [lookup] at hc
+    · exact v.swap.no_connected_peer hp wx
+  · rcases v.tx gx with hp | ⟨_, hp⟩
+    · exact v.no_connected_peer hp wy
+    · intro p c hc; rw [hp] at hc; simp [lookup] at hc
+
+/-! ### a measure that every internal step decreases (no livelock) -/
+
+def wEvt (ev : Evt) : Nat := if isConnReq ev then 4 else 2
+def wMsg : Msg → Nat
+  | .openPort _ _ _ => 3
+  | _ => 1
+def wQ (q : List Evt) : Nat := (q.map wEvt).sum
+def wW (w : List Msg) : Nat := (w.map wMsg).sum
+def sidePot (s : Side) : Nat :=
+  wQ s.connQ + wQ s.portQ + (if s.ep.listenerDropped then 0 else 2) + (if s.ep.goodbyeSent then 0 else 2)
+/-- potential of a state: what the runtime still has to do on its own -/
+def potential (s : St) : Nat := sidePot s.a + sidePot s.b + wW s.toA + wW s.toB
+
+theorem wW_append (a b : List Msg) : wW (a ++ b) = wW a + wW b := by simp [wW, List.sum_append]
+theorem wQ_append (a b : List Evt) : wQ (a ++ b) = wQ a + wQ b := by simp [wQ, List.sum_append]
+
+theorem handleEvt_weight (e e' : Ep) (ev : Evt) (m : Option Msg) (h : handleEvt e ev = some (e', m)) :
+    wW (emitList m) + 1 ≤ wEvt ev := by
+  cases ev <;> simp only [handleEvt] at h <;> (repeat' split at h) <;>
+    first
+    | (simp at h; done)
+    | (simp only [Option.some.injEq, Prod.mk.injEq] at h; obtain ⟨_, rfl⟩ := h
+       simp [wW, wEvt, isConnReq, emitList, wMsg, forPeer])
+
+theorem handleRx_weight (e e' : Ep) (m : Msg) (em : Emit) (h : handleRx e m = .ok (e', em)) :
+    wQ (autoEvts em) + 1 ≤ wMsg m := by
+  cases m <;> simp only [handleRx] at h <;> (repeat' split at h) <;>
+    first
+    | (simp at h; done)
+    | (simp only [Except.ok.injEq, Prod.mk.injEq] at h; obtain ⟨_, rfl⟩ := h
+       simp [wQ, autoEvts, wMsg, wEvt, isConnReq])
+
+theorem handleEvt_ld_mono (e e' : Ep) (ev : Evt) (m : Option Msg) (h : handleEvt e ev = some (e', m)) :
+    (e.listenerDropped = true → e'.listenerDropped = true) ∧ (e.goodbyeSent = true → e'.goodbyeSent = true) := by
+  rcases handleEvt_flags e e' ev m h with ⟨sf, _, _⟩ | ⟨_, _, rfl, _⟩ | ⟨_, _, rfl, _⟩ | ⟨_, _, rfl, _⟩
+  · exact ⟨fun h' => by rw [sf.ld]; exact h', fun h' => by rw [sf.gbs]; exact h'⟩
+  · exact ⟨fun h' => h', fun h' => h'⟩
+  · exact ⟨fun _ => rfl, fun h' => h'⟩
+  · exact ⟨fun h' => h', fun _ => rfl⟩
+
+theorem handleRx_gbs (e e' : Ep) (m : Msg) (em : Emit) (h : handleRx e m = .ok (e', em)) :
+    e'.goodbyeSent = e.goodbyeSent := by
+  cases m <;> simp only [handleRx] at h <;> (repeat' split at h) <;>
+    first
+    | (simp at h; done)
+    | (simp only [Except.ok.injEq, Prod.mk.injEq] at h; obtain ⟨rfl, _⟩ := h; simp)
+
+theorem sidePot_of (s t : Side) (evs : List Evt) (h1 : t.ep.listenerDropped = s.ep.listenerDropped)
+    (h2 : t.ep.goodbyeSent = s.ep.goodbyeSent) (h3 : t.connQ = s.connQ) (h4 : t.portQ = s.portQ ++ evs) :
+    sidePot t = sidePot s + wQ evs := by
+  simp only [sidePot, h1, h2, h3, h4, wQ_append]; omega
+
+/-- one internal step of a side: its own potential plus what it adds to the outgoing wire is
+smaller than before plus what it took from the incoming wire -/
+theorem sidePot_step (s s' : Side) (inW inW' out : List Msg) (l : Lab) (hl : l.internal = true)
+    (hs : stepSide s inW l = some (s', inW', out)) :
+    sidePot s' + wW inW' + wW out < sidePot s + wW inW := by
+  cases l <;> simp [Lab.internal] at hl <;> simp only [stepSide] at hs
+  case dispConn =>
+    (repeat' split at hs) <;> first
+      | (simp at hs; done)
+      | (rename_i ev rest hq' _ e' m he
+         simp only [Option.some.injEq, Prod.mk.injEq] at hs; obtain ⟨rfl, rfl, rfl⟩ := hs
+         have hw := handleEvt_weight _ _ _ _ he
+         obtain ⟨m1, m2⟩ := handleEvt_ld_mono _ _ _ _ he
+         simp only [sidePot, hq', wQ, List.map_cons, List.sum_cons]
+         cases h1 : s.ep.listenerDropped <;> cases h2 : e'.listenerDropped <;>
+           cases h3 : s.ep.goodbyeSent <;> cases h4 : e'.goodbyeSent <;> simp_all <;> omega)
+  case dispPort =>
+    (repeat' split at hs) <;> first
+      | (simp at hs; done)
+      | (rename_i ev rest hq' _ e' m he
+         simp only [Option.some.injEq, Prod.mk.injEq] at hs; obtain ⟨rfl, rfl, rfl⟩ := hs
+         have hw := handleEvt_weight _ _ _ _ he
+         obtain ⟨m1, m2⟩ := handleEvt_ld_mono _ _ _ _ he
+         simp only [sidePot, hq', wQ, List.map_cons, List.sum_cons, evtHandles_ep, evtHandles_connQ, evtHandles_portQ]
+         cases h1 : s.ep.listenerDropped <;> cases h2 : e'.listenerDropped <;>
+           cases h3 : s.ep.goodbyeSent <;> cases h4 : e'.goodbyeSent <;> simp_all <;> omega)
+  case dispListener =>
+    (repeat' split at hs) <;> first
+      | (simp at hs; done)
+      | (rename_i hg _ e' m he
+         simp only [Option.some.injEq, Prod.mk.injEq] at hs; obtain ⟨rfl, rfl, rfl⟩ := hs
+         simp only [Bool.and_eq_true, Bool.not_eq_true'] at hg
+         simp only [handleEvt, hg.2, Bool.false_eq_true, if_false, Option.some.injEq, Prod.mk.injEq] at he
+         obtain ⟨rfl, rfl⟩ := he
+         have hm : wMsg Msg.listenerFinish = 1 := rfl
+         simp only [sidePot, hg.2, emitList, wW, List.map_cons, List.map_nil, List.sum_cons, List.sum_nil, hm]
+         simp; omega)
+  case goodbye =>
+    (repeat' split at hs) <;> first
+      | (simp at hs; done)
+      | (rename_i hg _ e' m he
+         simp only [Option.some.injEq, Prod.mk.injEq] at hs; obtain ⟨rfl, rfl, rfl⟩ := hs
+         simp only [Bool.and_eq_true, Side.dispatching, Bool.not_eq_true'] at hg
+         simp only [handleEvt, hg.1, Bool.false_eq_true, if_false, Option.some.injEq, Prod.mk.injEq] at he
+         obtain ⟨rfl, rfl⟩ := he
+         have hm : wMsg Msg.goodbye = 1 := rfl
+         simp only [sidePot, hg.1, emitList, wW, List.map_cons, List.map_nil, List.sum_cons, List.sum_nil, hm]
+         simp; omega)
+  case deliver =>
+    (repeat' split at hs) <;> first
+      | (simp at hs; done)
+      | (rename_i m rest _ e' em he
+         simp only [Option.some.injEq, Prod.mk.injEq] at hs; obtain ⟨rfl, rfl, rfl⟩ := hs
+         have hw := handleRx_weight _ _ _ _ he
+         have hg2 : e'.goodbyeSent = s.ep.goodbyeSent := handleRx_gbs s.rxView e' m em he
+         rw [sidePot_of s _ (autoEvts em) (by simp [requeue]) (by simp [requeue, hg2]) (by simp) (by simp)]
+         simp only [wW, List.map_cons, List.sum_cons, List.map_nil, List.sum_nil] at hw ⊢
+         omega)
+
+/-- **no livelock**: every internal step strictly decreases the potential -/
+theorem potential_decreases (s s' : St) (x : Who) (l : Lab) (hl : l.internal = true) (h : step s x l = some s') :
+    potential s' < potential s := by
+  cases x with
+  | A =>
+    simp only [step, Option.map_eq_some_iff] at h
+    obtain ⟨⟨a', inW, out⟩, hs, rfl⟩ := h
+    have := sidePot_step s.a a' s.toA inW out l hl hs
+    simp only [potential, wW_append]; omega
+  | B =>
+    simp only [step, Option.map_eq_some_iff] at h
+    obtain ⟨⟨b', inW, out⟩, hs, rfl⟩ := h
+    have := sidePot_step s.b b' s.toB inW out l hl hs
+    simp only [potential, wW_append]; omega
+
+/-- no internal label enabled anywhere -/
+def Quiescent (s : St) : Prop := ∀ x l, l.internal = true → step s x l = none
+
+theorem Quiescent.noInt (s : St) (h : Quiescent s) : NoInt s.a s.toA ∧ NoInt s.b s.toB := by
+  constructor
+  · intro l hl
+    have := h .A l hl
+    simpa [step] using this
+  · intro l hl
+    have := h .B l hl
+    simpa [step] using this
+
 end Remoc.Table.Sys
